@@ -183,13 +183,13 @@ def _run_shard(binary, lines, timeout):
     return out
 
 
-def run_driver(binary, lines, timeout=600, shards=NPROC):
+def run_driver(binary, lines, timeout=600, shards=NPROC, per_shard=100):
     """Runs the driver over all lines on up to `shards` processes. Lines are dealt to the shards longest-first
     (cost grows with input size in the list-based model) and the outputs are put back in input order."""
     if not lines:
         return []
     _ABNORMAL["n"] = 0
-    n = max(1, min(shards, (len(lines) + 99) // 100))
+    n = max(1, min(shards, (len(lines) + per_shard - 1) // per_shard))
     order = sorted(range(len(lines)), key=lambda k: -len(lines[k]))
     buckets = [[] for _ in range(n)]
     loads = [0] * n
